@@ -10,12 +10,18 @@
 (*   AsList / AsTuple  the normalisers                                                         *)
 (*   awaitable trees   Fill / Subst, the data part of the waiter machine (LiftWaiter.tla)      *)
 (*                                                                                             *)
+(* Key order.  A plain dict is <<"m", pairs>> with the pairs in KEY order: Python's == on dicts *)
+(* ignores the order of insertion, so the statement does not pin it and the encoding hides it.  *)
+(* An OrderedDict (lifted by loop(.., dict) like every dict type pyg registers) is              *)
+(* <<"om", pairs>> with the pairs in INSERTION order: there the order is part of the value      *)
+(* (OrderedDict(b=1, a=2) # OrderedDict(a=2, b=1)), and "same shape and container types" means  *)
+(* the same keys in the same order.                                                             *)
 (* Values are the tagged pairs of Values.tla; a dict is <<"m", seq of <<key, value>>>> in key  *)
 (* order (string keys), an awaitable leaf is <<"aw", <<id, kind>>>>.                            *)
 EXTENDS Values, TLC
 
-IsMap(v)  == Tag(v) = "m"
-IsCont(v) == Tag(v) \in {"l", "t", "m"}                \* the lifted container types
+IsMap(v)  == Tag(v) \in {"m", "om"}
+IsCont(v) == Tag(v) \in {"l", "t", "m", "om"}               \* the lifted container types
 Width(v)  == Len(Pay(v))
 KeySet(v) == {Pay(v)[i][1] : i \in 1..Len(Pay(v))}
 Get(v, k) == Pay(v)[CHOOSE i \in 1..Len(Pay(v)) : Pay(v)[i][1] = k][2]
@@ -47,7 +53,7 @@ RECURSIVE SelK(_, _, _, _)
 SelK(c, ks, k, deep) ==
     IF ~IsMap(c) THEN c
     ELSE IF KeySet(c) = ks THEN Get(c, k)
-    ELSE IF deep THEN <<"m", [j \in 1..Len(Pay(c)) |-> <<Pay(c)[j][1], SelK(Pay(c)[j][2], ks, k, deep)>>]>>
+    ELSE IF deep THEN <<Tag(c), [j \in 1..Len(Pay(c)) |-> <<Pay(c)[j][1], SelK(Pay(c)[j][2], ks, k, deep)>>]>>
     ELSE c
 
 \* ---------------------------------------------------------------------------------------------
@@ -151,7 +157,7 @@ Lift(fn, x, cs, deep) ==
         <<Tag(x), [i \in 1..Width(x) |->
                       Lift(fn, Pay(x)[i], [j \in 1..Len(cs) |-> SelI(cs[j], Width(x), i, deep)], deep)]>>
     ELSE IF IsMap(x) THEN
-        <<"m", [i \in 1..Width(x) |->
+        <<Tag(x), [i \in 1..Width(x) |->
                   <<Pay(x)[i][1],
                     Lift(fn, Pay(x)[i][2], [j \in 1..Len(cs) |-> SelK(cs[j], KeySet(x), Pay(x)[i][1], deep)], deep)>>]>>
     ELSE Apply(fn, x, cs)
@@ -260,21 +266,21 @@ RECURSIVE SetDep(_, _)
 SetDep(x, dep) ==
     IF IsAw(x) THEN (IF AwKind(x) = "coro" THEN <<"aw", <<AwId(x), "coro", dep[AwId(x)]>>>> ELSE x)
     ELSE IF IsSeq(x) THEN <<Tag(x), [k \in 1..Width(x) |-> SetDep(Pay(x)[k], dep)]>>
-    ELSE IF IsMap(x) THEN <<"m", [k \in 1..Width(x) |-> <<Pay(x)[k][1], SetDep(Pay(x)[k][2], dep)>>]>>
+    ELSE IF IsMap(x) THEN <<Tag(x), [k \in 1..Width(x) |-> <<Pay(x)[k][1], SetDep(Pay(x)[k][2], dep)>>]>>
     ELSE x
 \* the structure with awaitable i replaced, in place, by its result
 RECURSIVE Fill(_, _, _)
 Fill(x, i, val) ==
     IF IsAw(x) THEN (IF AwId(x) = i THEN val ELSE x)
     ELSE IF IsSeq(x) THEN <<Tag(x), [k \in 1..Width(x) |-> Fill(Pay(x)[k], i, val)]>>
-    ELSE IF IsMap(x) THEN <<"m", [k \in 1..Width(x) |-> <<Pay(x)[k][1], Fill(Pay(x)[k][2], i, val)>>]>>
+    ELSE IF IsMap(x) THEN <<Tag(x), [k \in 1..Width(x) |-> <<Pay(x)[k][1], Fill(Pay(x)[k][2], i, val)>>]>>
     ELSE x
 \* law: every awaitable whose id is in `done` replaced by its result (V: id -> value)
 RECURSIVE Subst(_, _, _)
 Subst(x, done, V) ==
     IF IsAw(x) THEN (IF AwId(x) \in done THEN V[AwId(x)] ELSE x)
     ELSE IF IsSeq(x) THEN <<Tag(x), [k \in 1..Width(x) |-> Subst(Pay(x)[k], done, V)]>>
-    ELSE IF IsMap(x) THEN <<"m", [k \in 1..Width(x) |-> <<Pay(x)[k][1], Subst(Pay(x)[k][2], done, V)>>]>>
+    ELSE IF IsMap(x) THEN <<Tag(x), [k \in 1..Width(x) |-> <<Pay(x)[k][1], Subst(Pay(x)[k][2], done, V)>>]>>
     ELSE x
 \* a whole schedule at once: the awaitables complete in the order given
 RECURSIVE RunOrder(_, _, _, _)
